@@ -65,6 +65,10 @@ claim("C04", "static analysis: who-may-write classification of every store to Ag
       "Decides: JobQueue is written only by tail appends to the same agent's queue, the single-index prefix/suffix split of GetQueuedJobs and the operator's clear; the batch loop leaves before counting the job that reaches DEMON_MAX_RESPONSE_LENGTH and the oversized-first-job escape exists; jobs are handed out exactly when asked and the queue is non-empty; UploadMemFileInChunks cuts [start:min(start+chunk,size)] with stride chunk, one id, the total size, enqueues in order and returns the id; every issued job is recorded once. Known findings (printed as KNOWN-FINDING): JobQueue and Tasks have no common lock although several goroutines touch them. Not decided: exactly-once/FIFO as a history property, fairness.",
       TRUST, "DESIGN.md §3 R4, §4 C04")
 
+claim("C15", "static analysis: per-access lockset rule for the three guarded relay tables (mutex held in the function or at every call site), lock pairing, range-mutation rule, SSA shape rules for method selection, command filter, reply layout, handshake readers and relay task construction, exit-path rule for close propagation",
+      "Decides: every access to PortFwds/SocksCli/SocksSvr holds its declared mutex; every relay mutex is released on every path; no relay table is shrunk inside its own range loop without leaving it; {VER,NOAUTH} is written only where NOAUTH was offered and {VER,NOMATCH} otherwise; only CONNECT registers a client; the reply is VER REP 0x00 ATYP [len iff FQDN] addr port(big-endian) and is built from the connection/ATYP/address/port stored for that client, which are the parsed request's; the handshake readers use no bufio and return complete fields (io.ReadFull); relay tasks carry the client's own socket id. Known finding (printed as KNOWN-FINDING): a client-side EOF leaves the socket registered and the agent uninformed. Not decided: byte-stream integrity over all chunkings, ordering between relay goroutines, races on fields of elements handed out of the critical section (SocksClient.Conn).",
+      TRUST, "DESIGN.md §3 R4/R5/R3, §4 C15")
+
 for i in range(1, 21):
     pid = "C%02d" % i
     if pid not in CLAIMS and pid not in NA:
